@@ -7,6 +7,7 @@ import (
 	"go/token"
 	"go/types"
 	"sort"
+	"strconv"
 	"strings"
 
 	"golang.org/x/tools/go/ssa"
@@ -376,6 +377,16 @@ func (fx *fnExec) globalTerm(name string, t types.Type) string {
 		// error-valued globals (io.EOF ...) are non-nil
 		if fx.d.SortOf(t) == "Iface" {
 			fx.asserts = append(fx.asserts, assertion{-1, "(assert (not (= " + n + " iface_nil)))"})
+		}
+		// package-level `var X = regexp.MustCompile("const")`: the value is what MustCompile's assumed
+		// contract says about that pattern
+		if pat, ok := fx.g.globalRegexps()[name]; ok {
+			b := "false"
+			if patternAnchored(pat) {
+				b = "true"
+			}
+			fx.asserts = append(fx.asserts, assertion{-1, "(assert (and (> " + n + " 0) (= (rxAnch " + n + ") " + b + ")))"})
+			fx.assumptionsUsed["package-level regexp "+name+" taken from its initialiser regexp.MustCompile("+strconv.Quote(pat)+")"] = true
 		}
 	}
 	return n
